@@ -129,6 +129,11 @@ def gen_case(rng, idx):
     attempts = rng.choice([1, 2, 2, 3])
     timeout = rng.choice([0.5, 1, 1, 2])
     inflight = rng.choice([1, 2, 3, 64, 64])
+    crowded_free = klass == "free" and rng.random() < 0.5
+    if crowded_free:
+        # several request buckets (one per 5 in-flight slots) AND a waiting queue when the base is freed: every request
+        # finished by the free promotes a waiting one into a random bucket, possibly one already drained (seed C34-3)
+        inflight = rng.choice([6, 7, 8, 11])
     bflags = rng.choice([0, 0x8000]) | rng.choice([0, 0, 0x10])
     L = ["CASE %d" % idx, "B %d" % bflags, "RNG %d %d" % (rng.randrange(1 << 40), rng.choice([0, 0, 1, 2, 3]))]
     for i in range(nns):
@@ -157,7 +162,7 @@ def gen_case(rng, idx):
             L.append("UR %d 1 0 0 %s" % (i, G.echo_reply(rng=rng)))
         for _ in range(rng.randint(1, 5)):
             t, tg = tcp_rule(rng, servfail=(klass == "tcp")); L.append("TR %d %s" % (i, t)); tags.add(tg)
-    nreq = rng.randint(4, 10)
+    nreq = rng.randint(14, 26) if crowded_free else rng.randint(4, 10)
     reqs = {}
     next_rid = 0
     steps = []
@@ -193,7 +198,8 @@ def gen_case(rng, idx):
     has_gai = any(v["kind"] == "G" for v in reqs.values())
     if klass == "free":
         pos = rng.randrange(len(steps) // 2, len(steps) + 1)
-        steps.insert(pos, "F %d" % rng.choice([0, 1])); tags.add("free-midway")
+        steps.insert(pos, "F %d" % (1 if crowded_free else rng.choice([0, 1]))); tags.add("free-midway")
+        if crowded_free: tags.add("free-with-waiting-queue-and-several-buckets")
         if rng.random() < 0.5:
             steps.insert(pos, "S")
     elif klass == "plain" and not has_gai and rng.random() < 0.25:
